@@ -45,6 +45,14 @@ def run(run, harness, replay=None):
             run.add_tlc("Bitonic/" + mode, r)
             os.remove(os.path.join(SPEC, name))
             kinds.append((cpath, "u8,u16,tup,arr"))
+        if tier == "quick":
+            # larger key sets (result lengths up to 9, beyond the first power of two) sampled from the thorough space
+            name = cfg(run, "join", 1, 5, 6)
+            cpath = os.path.join(run.work, "join_large.ndjson")
+            r, n = tlc_cases("Bitonic", name, cpath, workers=4, timeout=3000, simulate="num=700", depth=3, seed=int(run.seed) + 7, max_cases=700)
+            run.add_tlc("Bitonic/join-sampled", r)
+            os.remove(os.path.join(SPEC, name))
+            kinds.append((cpath, "u8,u16,tup,arr"))
         run.cov["exhaustive"] = True
     for cpath in direct:
         rpath = cpath + ".res"
